@@ -146,6 +146,7 @@ def run(tier, seed, replay=None):
                        "a history that ends in execution_exception is judged up to that point"]
     vlib.proof_part(rep, PROP, thorough_modules=["OratioProofs.Properties.C19"])
     rng = random.Random(seed)
+    events = 0
     n = 1500 if tier == "quick" else 15000
     hs = [exgen.history(rng, fractional=(i % 4 != 0)) for i in range(n)]
     lines = [exgen.line_of(t, u, s) for t, u, s, m in hs]
